@@ -1,7 +1,8 @@
 (** C03 - Derived loggers are isolated: the output of a logger depends only on its own derivation chain. *)
-From Coq Require Import List NArith.
+From Coq Require Import List NArith ZArith.
 Import ListNotations.
 From Glb Require Import Lib.GoSlice Proofs.GoSliceP Model.LoggerChain Proofs.LoggerChainP.
+From Glb Require Lib.TextTok Model.LoggerJson Proofs.LoggerJsonWithP Model.LoggerText Proofs.LoggerTextWithP.
 
 (** SCOPE. The theorems below are about SEQUENTIAL histories: [Derive] is one atomic operation of the
     model, operations do not interleave inside a derivation, and the only channel between handlers that is
@@ -96,6 +97,49 @@ Theorem C03_with_is_callsite :
   = line_alone C A G M render_attrs render_group header closer ctx0 f grow' c (prepend A M l r).
 Proof. exact with_is_callsite. Qed.
 Print Assumptions C03_with_is_callsite.
+
+(** The [compositional] hypothesis is DISCHARGED for the two real byte-level renderers - the JSON model
+    (Model/LoggerJson.v, tied to the code by the C01 correspondence) and the Text model
+    (Model/LoggerText.v, tied by the C13 correspondence; for every choice of the unicode oracles):
+    for every handler state [h] (any open groups, any separator state, any preformatted bytes), every
+    list [l] given to With and every record, the line is byte-for-byte the line of [h] for the record
+    with [l] put in front of its own attributes; and two Withs in a row are one With of the concatenation. *)
+Theorem C03_json_with_is_callsite :
+  forall (h : LoggerJson.handler) (l : list (list N * LoggerJson.value)) (r : LoggerJson.record),
+  LoggerJson.handle (LoggerJson.with_attrs h l) r = LoggerJson.handle h (LoggerJsonWithP.prepend l r).
+Proof. exact LoggerJsonWithP.json_with_is_callsite. Qed.
+Print Assumptions C03_json_with_is_callsite.
+
+Theorem C03_json_with_chain :
+  forall (c : list LoggerJson.deriv) (a b : list (list N * LoggerJson.value)) (r : LoggerJson.record),
+  LoggerJson.handle (LoggerJson.derive (c ++ [LoggerJson.DAttrs a])) r
+  = LoggerJson.handle (LoggerJson.derive c) (LoggerJsonWithP.prepend a r)
+  /\ LoggerJson.handle (LoggerJson.derive (c ++ [LoggerJson.DAttrs a; LoggerJson.DAttrs b])) r
+     = LoggerJson.handle (LoggerJson.derive (c ++ [LoggerJson.DAttrs (a ++ b)])) r.
+Proof. intros; split; [apply LoggerJsonWithP.json_with_chain | apply LoggerJsonWithP.json_with_split]. Qed.
+Print Assumptions C03_json_with_chain.
+
+Theorem C03_text_with_is_callsite :
+  forall (isSpace isPrint sp_print : N -> bool) (h : LoggerText.handler) (l : list TextTok.attr) (r : TextTok.record),
+  LoggerText.handle isSpace isPrint sp_print (LoggerText.with_attrs isSpace isPrint sp_print h l) r
+  = LoggerText.handle isSpace isPrint sp_print h (LoggerTextWithP.prepend l r).
+Proof. exact LoggerTextWithP.text_with_is_callsite. Qed.
+Print Assumptions C03_text_with_is_callsite.
+
+Theorem C03_text_with_chain :
+  forall (isSpace isPrint sp_print : N -> bool) (c : list TextTok.deriv) (l : list TextTok.attr) (r : TextTok.record),
+  LoggerText.handle isSpace isPrint sp_print (LoggerText.derive isSpace isPrint sp_print (c ++ [TextTok.DAttrs l])) r
+  = LoggerText.handle isSpace isPrint sp_print (LoggerText.derive isSpace isPrint sp_print c) (LoggerTextWithP.prepend l r).
+Proof. exact LoggerTextWithP.text_with_chain. Qed.
+Print Assumptions C03_text_with_chain.
+
+(** non-vacuity: a With under an open group, a keyed group and a leaf - the JSON line nests them under the group *)
+Example C03_json_with_example :
+  LoggerJson.handle (LoggerJson.derive [LoggerJson.DGroup [103%N]; LoggerJson.DAttrs [([97%N], LoggerJson.VInt 1%Z)]])
+                    (LoggerJson.mkR [84%N] LoggerJson.LInfo None [109%N] [([98%N], LoggerJson.VBool true)])
+  = LoggerJson.handle (LoggerJson.derive [LoggerJson.DGroup [103%N]])
+                    (LoggerJson.mkR [84%N] LoggerJson.LInfo None [109%N] [([97%N], LoggerJson.VInt 1%Z); ([98%N], LoggerJson.VBool true)]).
+Proof. vm_compute. reflexivity. Qed.
 
 (** Facts read from the source (gen/loggerfacts) select the model's flags; a fact table that
     satisfies the discipline gives isolation. *)
